@@ -209,7 +209,7 @@ def gen_case(rnd, j):
 
 
 def run(ctx):
-    for j in range(ctx.scale(150, 30000)):
+    for j in range(ctx.scale(150, 8000)):
         judge_triple(ctx, gen_case(ctx.rnd, j + ctx.shard))
 
 
